@@ -176,6 +176,13 @@ def generate(rng, tier):
              "data_seed": rng.randrange(1 << 30)}
         if rng.random() < 0.12:
             o["file"] = rng.choice(SPECIMENS)
+        elif cell in ("tri", "quad", "tet") and rng.random() < 0.15:
+            # the mesh enters through from_meshio's gmsh path: physical
+            # groups given as cell sets over explicit facet elements, each
+            # with a seeded direction, mixing interior and boundary facets
+            o["cellsets"] = {"seed": rng.randrange(1 << 30),
+                             "groups": rng.randint(1, 3)}
+            o["recipe"] = dict(rec, order=1)
         ops.append(o)
         return slot
 
@@ -270,6 +277,8 @@ def build_mesh(o):
             keep = {k: v for k, v in m.subdomains.items()
                     if not str(k).startswith("gmsh:")}
             m = _replace(m, _subdomains=keep or None)
+    if m is None and o.get("cellsets"):
+        m = _from_cellsets(o)
     if m is None:
         m = meshes.build(o["recipe"])
     subs, bnds = {}, {}
@@ -313,11 +322,55 @@ def build_mesh(o):
     return m
 
 
+def _from_cellsets(o):
+    """A mesh as gmsh would hand it over: facet elements with a direction,
+    grouped into named cell sets (interior and boundary facets mixed)."""
+    import meshio
+    from skfem.io.meshio import from_meshio
+    base = meshes.build(o["recipe"])
+    r = random.Random(o["cellsets"]["seed"])
+    kind = type(base).__name__
+    ctype = {"MeshTri1": "triangle", "MeshQuad1": "quad",
+             "MeshTet1": "tetra"}[kind]
+    btype = {"MeshTri1": "line", "MeshQuad1": "line",
+             "MeshTet1": "triangle"}[kind]
+    fac = np.array(base.facets)
+    f2t = np.array(base.f2t)
+    nf = fac.shape[1]
+    chosen, sets, start = [], {}, 0
+    for g in range(o["cellsets"]["groups"]):
+        k = r.randint(1, min(nf, 8))
+        pick = r.sample(range(nf), k)
+        rows = []
+        for f in pick:
+            v = fac[:, f].tolist()
+            if r.random() < 0.5:
+                v = v[::-1] if len(v) == 2 else [v[0], v[2], v[1]]
+            rows.append(v)
+        chosen += rows
+        sets["grp%d" % g] = [np.array([], dtype=np.int64),
+                             np.arange(start, start + k, dtype=np.int64)]
+        start += k
+    nt = base.t.shape[1]
+    sets["dom"] = [np.array(sorted(r.sample(range(nt), r.randint(1, nt))),
+                            dtype=np.int64), np.array([], dtype=np.int64)]
+    mio = meshio.Mesh(np.array(base.p.T),
+                      [(ctype, np.array(base.t.T)),
+                       (btype, np.array(chosen, dtype=np.int64))],
+                      cell_sets=sets)
+    return from_meshio(mio)
+
+
 def user_data(m, seed):
     g = np.random.Generator(np.random.PCG64(seed))
     pd = {"upoint": g.standard_normal(m.p.shape[1]),
           "ipoint": g.integers(0, 50, size=m.p.shape[1]).astype(np.float64)}
     cd = {"ucell": [g.standard_normal(m.nelements)]}
+    # vector-valued fields (three components: what every format can hold)
+    if seed % 3 == 0:
+        pd["vpoint"] = g.standard_normal((m.p.shape[1], 3))
+    if seed % 3 == 1:
+        cd["vcell"] = [g.standard_normal((m.nelements, 3))]
     return pd, cd
 
 
@@ -445,6 +498,8 @@ def _execute(trace):
                     W[o["slot"]] = build_mesh(o)
                     if o.get("file"):
                         bump(probes, "specimen-file-mesh")
+                    elif o.get("cellsets"):
+                        bump(probes, "mesh-entered-through-gmsh-cell-sets")
                     W[o["slot"] + ":data"] = user_data(W[o["slot"]],
                                                        o["data_seed"])
                     log.append((k, "mk", mesh_digest(W[o["slot"]])))
@@ -642,16 +697,24 @@ def _check_data(entry, out):
     for k, v in pd0.items():
         if k not in pd:
             return "R1-point-data-differs", {"missing": k}
-        got = np.asarray(pd[k]).astype(np.float64).ravel()
+        got = np.asarray(pd[k]).astype(np.float64)
+        if v.ndim == 1:
+            got = got.ravel()
         if got.shape != v.shape or not np.array_equal(got, v.astype(np.float64)):
-            return "R1-point-data-differs", {"name": k}
+            return "R1-point-data-differs", {"name": k,
+                                             "saved_shape": list(v.shape),
+                                             "loaded_shape": list(got.shape)}
     for k, v in cd0.items():
         if k not in cd:
             return "R1-cell-data-differs", {"missing": k}
-        got = np.asarray(cd[k][0]).astype(np.float64).ravel()
+        got = np.asarray(cd[k][0]).astype(np.float64)
+        if v[0].ndim == 1:
+            got = got.ravel()
         if got.shape != v[0].shape or \
                 not np.array_equal(got, v[0].astype(np.float64)):
-            return "R1-cell-data-differs", {"name": k}
+            return "R1-cell-data-differs", {"name": k,
+                                            "saved_shape": list(v[0].shape),
+                                            "loaded_shape": list(got.shape)}
     return None
 
 
